@@ -203,3 +203,89 @@ func pipeSplitRule(R string) RuleFunc {
 		}
 	}
 }
+
+var bytewiseTable = map[string]string{
+	"notations/jschema/scanner.stateInlineComment:s.index--":   "the line end that closes a `#` comment is read again by the state below (the comment state was entered from it); one byte back, never forward",
+	"notations/jschema/scanner.stateMultiLineComment:s.index++": "the second and third `#` of a closing `###`, both tested by the lookahead in the condition above (index+1 < dataSize)",
+}
+
+// bytewiseRule: the scanners classify every byte; nothing is skipped by a search.
+func bytewiseRule(R string) RuleFunc {
+	return func(c *core.Ctx) {
+		c.Rule(R, "the lexeme scanners (schema, enum rule, JSON document) read their input one byte per step: the position field `index` is only ever moved by ++ / -- (in the drivers Next/processTail, and at 2 tabled places inside state functions), never assigned or advanced by a computed amount, and no state function searches the data with a library routine (bytes.IndexByte, strings.Index, ...). A jump to the next `\\n` leaves the bytes in between unclassified: a lone CR no longer ends a comment, so CR-only texts are read differently from their LF and CRLF spellings and Len() runs into the text that follows")
+		c.Floor(R, 8)
+		pkgs := map[string]bool{"notations/jschema/scanner": true, "rules/enum": true, "formats/json": true}
+		n := 0
+		for _, d := range c.P.FuncDecls() {
+			rel := core.Rel(d.Pkg.PkgPath)
+			if !pkgs[rel] || d.Decl.Body == nil {
+				continue
+			}
+			fn := core.DeclName(d.Pkg, d.Decl)
+			isState := false
+			if d.Obj != nil {
+				sig := d.Obj.Type().(*types.Signature)
+				if sig.Params().Len() > 0 && sig.Results().Len() > 0 {
+					if b, ok := sig.Params().At(sig.Params().Len() - 1).Type().Underlying().(*types.Basic); ok && b.Kind() == types.Uint8 {
+						if nt, ok := sig.Results().At(0).Type().(*types.Named); ok && nt.Obj().Name() == "state" {
+							isState = true
+						}
+					}
+				}
+			}
+			isIndex := func(e ast.Expr) bool {
+				sel, ok := ast.Unparen(e).(*ast.SelectorExpr)
+				if !ok || sel.Sel.Name != "index" {
+					return false
+				}
+				t := core.TypeOf(d.Pkg, sel.X)
+				return t != nil && (strings.HasSuffix(t.String(), "canner"))
+			}
+			ast.Inspect(d.Decl.Body, func(nd ast.Node) bool {
+				switch x := nd.(type) {
+				case *ast.IncDecStmt:
+					if !isIndex(x.X) {
+						return true
+					}
+					n++
+					key := fn + ":" + core.ExprStr(x.X) + x.Tok.String()
+					pos := c.P.Pos(x.Pos())
+					what := core.ExprStr(x.X) + x.Tok.String() + " in " + fn
+					switch {
+					case !isState:
+						c.OKd(R, key, pos, what, "driver: one byte per step")
+					case bytewiseTable[key] != "":
+						c.Tabled(R, key, pos, what, bytewiseTable[key])
+					default:
+						c.Bad(R, key, pos, what, "a state function moves the read position itself: the byte stepped over is not classified by any state")
+					}
+				case *ast.AssignStmt:
+					for _, l := range x.Lhs {
+						if !isIndex(l) {
+							continue
+						}
+						n++
+						key := fn + ":" + core.ExprStr0(x)
+						// constructors and rewinds start at a constant
+						if x.Tok == token.ASSIGN && len(x.Rhs) == 1 && core.ConstOf(d.Pkg, x.Rhs[0]) != nil && !isState {
+							c.OKd(R, key, c.P.Pos(x.Pos()), core.ExprStr0(x)+" in "+fn, "reset to a constant")
+							continue
+						}
+						c.Bad(R, key, c.P.Pos(x.Pos()), core.ExprStr0(x)+" in "+fn, "the read position is assigned / advanced by a computed amount: the bytes in between are never classified by a state (a line end, a quote or a comment closer among them is missed)")
+					}
+				case *ast.CallExpr:
+					o := core.Callee(d.Pkg, x)
+					if o == nil || o.Pkg() == nil {
+						return true
+					}
+					if p := o.Pkg().Path(); (p == "bytes" || p == "strings") && (strings.HasPrefix(o.Name(), "Index") || strings.HasPrefix(o.Name(), "LastIndex") || strings.HasPrefix(o.Name(), "Contains") || o.Name() == "Cut" || strings.HasPrefix(o.Name(), "Split") || strings.HasPrefix(o.Name(), "Fields")) && isState {
+						n++
+						c.Bad(R, fn+":"+p+"."+o.Name(), c.P.Pos(x.Pos()), p+"."+o.Name()+" in the state function "+fn, "a state function searches the data with a library routine instead of stepping: bytes that matter to other states are skipped")
+					}
+				}
+				return true
+			})
+		}
+		c.OKd(R, "inventory", "-", core.F("%d writes of a scanner's index field in 3 scanner packages", n), "all ++/-- or constant resets")
+	}
+}
